@@ -206,7 +206,9 @@ V("C13", "benign_mpc_local_rename", "silent", (MPCF, "        vang = data[8] * d
 
 # ---------------- C14
 SNAP = "andes/utils/snapshot.py"
-V("C14", "run_always_inits", "violation", (TDS, "        if system.dae.t < 0:\n            self.init()\n        else:  # resume simulation\n            self.init_resume()", "        if system.dae.t <= 0:\n            self.init()\n        else:  # resume simulation\n            self.init_resume()"), rule="C14.resume")
+V("C14", "run_always_inits", "violation", (TDS, "        resume = not (system.dae.t < 0)\n", "        resume = not (system.dae.t <= 0)\n"), rule="C14.resume")
+V("C14", "run_resume_and_init_both", "violation", (TDS, "        if resume:\n            self.init_resume()\n", "        self.init_resume()\n"), rule="C14.resume")
+V("C14", "benign_run_dispatch_if_else", "silent", (TDS, "        resume = not (system.dae.t < 0)\n        if not resume:\n            self.init()\n", "        resume = system.dae.t >= 0\n        if system.dae.t < 0:\n            self.init()\n"))
 V("C14", "resume_rebuilds_schedule", "violation", (TDS, "        self.calc_h(resume=True)\n        self._advance_time()", "        system.store_switch_times(system.exist.tds)\n        self.calc_h(resume=True)\n        self._advance_time()"), rule="C14.resume")
 V("C14", "pbar_kept", "violation", (TDS, "        self.pbar.close()\n        self.pbar = None\n", "        self.pbar.close()\n"), rule="C14.resume")
 V("C14", "snapshot_no_strip", "violation", (SNAP, "    system.remove_pycapsule()\n", ""), rule="C14.snapshot")
